@@ -223,7 +223,7 @@ class AcqProblem:
         self.cfg = cfg
         d = cfg["d"]
         hp = make_hyperparameter_ranges({f"x{i}": uniform(0.0, 1.0) for i in range(d)})
-        base = 7919 * int(seed)
+        base = 0          # fantasy draws do not depend on VERIF_SEED (same lattice for every seed)
         bc = cfg["tt"] == "bc"
         A, C, K, CI = INTERNAL_METRIC_NAME, INTERNAL_CONSTRAINT_NAME, INTERNAL_COST_NAME, CONSTRAINT_INF_NAME
         SPY.reset()
